@@ -36,7 +36,10 @@ ROLES = ["state", "parameter", "intermediate", "condintermediate", "nested"]
 # a parameter named like a state derivative / like another quantity's renamed form
 PAIRS = [("lambda", "lambda_"), ("lambda_", "lambda"), ("numpy", "numpy_"), ("numpy_", "numpy"), ("double", "double_"),
          ("double_", "double"), ("M_PI_", "M_PI"), ("fabs", "fabs_"), ("len_", "len"), ("in", "in_"), ("dx_dt", "i0"),
-         ("dy_dt", "i0"), ("b", "dx_dt_"), ("x_", "y_"), ("async", "async_"), ("shape_", "shape")]
+         ("dy_dt", "i0"), ("b", "dx_dt_"), ("x_", "y_"), ("async", "async_"), ("shape_", "shape"),
+         # words that only ONE backend's printer reserves
+         ("jax", "jax_"), ("jax_", "jax"), ("len", "len_"), ("shape", "shape_"), ("await_", "await"), ("float", "float_"), ("int_", "int")]
+ALL_BACKEND_PAIRS = {"jax", "jax_", "len", "shape", "float", "int_"}
 
 
 def pair_model(A, B):
@@ -88,8 +91,21 @@ def tasks(tier, seed):
             for b in bs:
                 out.append({"family": "IDENT", "id": f"{ident}:{role}", "text": text, "opts": {"ident": ident, "role": role, "backend": b}})
     for k, (A, B) in enumerate(PAIRS):
-        for b in (backends if tier != "quick" else [backends[k % 3], backends[(k + 1) % 3]]):
+        for b in (backends if (tier != "quick" or A in ALL_BACKEND_PAIRS) else [backends[k % 3], backends[(k + 1) % 3]]):
             out.append({"family": "PAIR", "id": f"{A}+{B}", "text": pair_model(A, B), "opts": {"ident": A, "role": "pair", "backend": b}})
+    # a state / parameter with an internal name that NOTHING reads, generated with remove_unused=True and schemes: pruned
+    # quantities are still unpacked by the schemes, monitor_values and missing_values
+    k = 0
+    for ident in ["dt", "t", "time", "states", "parameters", "values", "missing_variables", "shape", "numpy", "len", "dx_dt_linearized", "jax"]:
+        for role in ("state", "parameter"):
+            if role == "state":
+                text = f"parameters(a=0.5)\nstates(x=1.0, {ident}=3.0)\ndx_dt = -a*x + t\nd{ident}_dt = 1\n"
+            else:
+                text = f"parameters(a=0.5, {ident}=3.0)\nstates(x=1.0, y=2.0)\ndx_dt = -a*x + t\ndy_dt = x - y\n"
+            for b in (backends if tier != "quick" else [backends[k % 3]]):
+                out.append({"family": "UNUSEDIDENT", "id": f"{ident}:{role}|remove_unused", "text": text,
+                            "opts": {"ident": ident, "role": role, "backend": b, "remove_unused": True}})
+            k += 1
     # a renamed word that nothing depends on (monitored only) next to its renamed form, generated with remove_unused=True
     for k, A in enumerate(["lambda", "in", "numpy", "double", "len", "fabs"]):
         text = (f"parameters(a=0.5, {A}_=2.0)\nstates(x=1.0, y=3.0)\n{A} = a*x + 7\nuse = {A}_*x\n"
